@@ -22,4 +22,5 @@ def run(chk, replay=None):
     # asks for the next element after the previous next() completed (doc/concepts.md), so the "spurious done"
     # of a second concurrent next() (theorem C16_autoreset_spurious_done_refuted) is outside the property.
     k1.run_unit(chk, event.EventV2Logic())
-    k1.run_unit(chk, event.EventV2Lifetime(), key_prefix="event_v2/op-touched-after-completion")
+    # keys name the failing call site (event_v2/touched-after-completion/<word>:<op>), not the program
+    event.run_lifetime(chk)
